@@ -72,17 +72,22 @@ func (interp *Interpreter) Symbols(importPath string) Exports {
 // getWrapper returns the wrapper type of the corresponding interface, trying
 // first the composed ones, or nil if not found.
 func getWrapper(n *node, t reflect.Type) reflect.Type {
-	p, ok := n.interp.binPkg[t.PkgPath()]
+	return getWrapperType(n.interp, n.typ, t)
+}
+
+// getWrapperType returns the wrapper type of interface t for a value of interpreted type typ.
+func getWrapperType(interp *Interpreter, typ *itype, t reflect.Type) reflect.Type {
+	p, ok := interp.binPkg[t.PkgPath()]
 	if !ok {
 		return nil
 	}
 	w := p["_"+t.Name()]
-	lm := n.typ.methods()
+	lm := typ.methods()
 
 	// mapTypes may contain composed interfaces wrappers to test against, from
 	// most complex to simplest (guaranteed by construction of mapTypes). Find the
 	// first for which the interpreter type has all the methods.
-	for _, rt := range n.interp.mapTypes[w] {
+	for _, rt := range interp.mapTypes[w] {
 		match := true
 		for i := 1; i < rt.NumField(); i++ {
 			// The interpreter type must have all required wrapper methods.
